@@ -770,10 +770,10 @@ pub fn end_state_checks(sh: &Arc<Sh>, pool: &TPool, log: &mut Vec<String>, candi
     }
     if closed {
         if st.max_size != 0 {
-            sh.viol(&["C06"], "closed_max_size", format!("closed pool reports max_size {}", st.max_size));
+            sh.viol(&["C06", "C11"], "closed_max_size", format!("closed pool reports max_size {}", st.max_size));
         }
         if live != 0 || st.size != 0 {
-            sh.viol(&["C06"], "closed_pool_keeps_objects", format!("closed pool at rest: {} objects still alive inside, status {:?}", live, st));
+            sh.viol(&["C06", "C11"], "closed_pool_keeps_objects", format!("closed pool at rest: {} objects still alive inside, status {:?}", live, st));
         }
     } else {
         if !candidates.iter().flatten().any(|c| *c == st.max_size) {
